@@ -5,6 +5,10 @@ tables, defaults applied on every replica), one node is kept partitioned, the ot
 logs, the straggler rejoins and is brought up to date FROM A SNAPSHOT (its batteries are rebuilt by
 `_deserialize`), more operations follow.
 
+Every second schedule draws its arguments from the MIXED domain of `corr/batteries_mixed.py` (None, 0, False,
+'', (), ... as values, keys, items and defaults; optional arguments omitted vs. an explicit None) and is
+compared by repr.
+
 Monitor (the property statement): every callback result == the builtin's result for the same call, in
 submission order; at the end all three replicas hold contents equal to the builtin's.
 `ReplSet.pop` is part of the streams (D20 repaired): the callback result must be a member of the mimic
@@ -18,6 +22,7 @@ import json
 import time
 
 from harness.corr import batteries_ops as bo
+from harness.corr import batteries_mixed as bm
 
 PROPERTIES = ["C15"]
 ORDER = 60
@@ -26,6 +31,8 @@ NAMES = ["counter", "list", "dict", "set", "queue", "pq"]
 
 
 def make_sim(repo, seed, maxsize):
+    import logging
+    logging.getLogger("pysyncobj").addHandler(logging.NullHandler())   # "replicated method raised" tracebacks: observed via callbacks
     bo.load_batteries(repo)
     from harness.sim import Sim
 
@@ -44,6 +51,35 @@ def make_sim(repo, seed, maxsize):
             return Obj
     return BSim(repo, ["a", "b", "c"], seed=seed,
                 conf={"logCompactionMinEntries": 10 ** 9, "logCompactionMinTime": 10 ** 9})
+
+
+def gen_ops_mixed(rng, n, maxsize):
+    """the same for the mixed domain (raw Python literals, see corr/batteries_mixed.py)"""
+    import copy
+    out = []
+    track = dict((c, bo.make_builtin(c, maxsize)) for c in NAMES)
+    while len(out) < n:
+        cls = rng.choice(NAMES)
+        v = track[cls].v
+        size = v.qsize() if cls in ("queue", "pq") else 0 if cls == "counter" else len(v)
+        op = bm.gen_op(rng, cls, size)
+        if op[0] not in bo.REPLICATED[cls] or (cls == "list" and op[0] == "__setitem__"):
+            continue
+        if cls == "set" and op[0] == "pop":
+            if not v:
+                continue
+            v.remove(min(v, key=lambda x: (type(x).__name__, repr(x))))
+            out.append((cls, op))
+            continue
+        if cls == "pq" and op[0] == "put" and type(bm.unlit(op[1])) not in (int, bool):
+            continue                                  # unorderable items raise inside heappush
+        if cls not in ("queue", "pq"):
+            probe = copy.deepcopy(track[cls])
+            if isinstance(bm.call_builtin(cls, probe, op), bm.Err):
+                continue
+        bm.call_builtin(cls, track[cls], op)
+        out.append((cls, op))
+    return out
 
 
 def gen_ops(rng, n, maxsize):
@@ -83,7 +119,7 @@ def gen_ops(rng, n, maxsize):
     return out
 
 
-def scenario(repo, seed, rng, n_ops, maxsize):
+def scenario(repo, seed, rng, n_ops, maxsize, mixed=False):
     sim = make_sim(repo, seed, maxsize)
     sim.connect_all()
     L = sim.elect()
@@ -92,15 +128,21 @@ def scenario(repo, seed, rng, n_ops, maxsize):
     others = [i for i in sim.voters if i != L]
     F, S = others                    # S = straggler
     sim.run(4)
-    ops = gen_ops(rng, n_ops, maxsize)
+    ops = gen_ops_mixed(rng, n_ops, maxsize) if mixed else gen_ops(rng, n_ops, maxsize)
     results = {}                     # submission index -> result / error
 
     def submit(k, node, cls, op):
-        name, args = bo.args_of(cls, op)
+        name, args = bm.args_of(op) if mixed else bo.args_of(cls, op)
+        if mixed and cls == "set" and name == "pop":
+            args = []
+        n_err = len(sim.errors)
 
         def cb(res, err, k=k):
             results[k] = (res, err)
         sim._call(node, getattr(sim.objs[node].bat[cls], name), *args, callback=cb)
+        if len(sim.errors) > n_err and k not in results:
+            # the call raised at the CALLER (before anything was replicated), e.g. a missing argument
+            results[k] = ("raised-at-caller", sim.errors[-1][1])
 
     def phase(lo, hi, nodes, among):
         """bursts of 1..6 commands from ONE node (so that log order = submission order), then run until
@@ -141,7 +183,7 @@ def scenario(repo, seed, rng, n_ops, maxsize):
     return (sim, ops, results), info
 
 
-def evaluate(sim, ops, results, maxsize):
+def evaluate(sim, ops, results, maxsize, mixed=False):
     """property monitor: callbacks == builtin results (in log order = submission order here, one
     submitter at a time and FIFO channels), replicas' contents == builtins' contents"""
     viols = []
@@ -151,11 +193,22 @@ def evaluate(sim, ops, results, maxsize):
     # schedule preserves per battery only if commands are not reordered: check with the final contents too.
     n_cb = 0
     for k, (cls, op) in enumerate(ops):
-        if cls == "set" and op[0] == "pop" and k in results:
+        called = k in results and results[k][0] != "raised-at-caller"
+        if mixed:
+            if cls == "set" and op[0] == "pop" and called:
+                want = bm.canon(bm.call_builtin(cls, builtins[cls], op, results[k][0] if results[k][1] == 0 else bm.NO_ORACLE))
+            else:
+                want = bm.canon(bm.call_builtin(cls, builtins[cls], op))
+        elif cls == "set" and op[0] == "pop" and called:
             # reference = the set abstraction: the returned element is a member, exactly it is removed
             want = bo.call_builtin(cls, builtins[cls], op, results[k][0] if results[k][1] == 0 else bo.NO_ORACLE)
         else:
             want = bo.call_builtin(cls, builtins[cls], op)
+        if k in results and results[k][0] == "raised-at-caller":
+            viols.append({"signature": "batteries.%s.%s:differs-from-builtin:%s" % (bo.CLSNAME[cls], op[0], results[k][1]),
+                          "what": "%s.%s%r raised %s at the caller (nothing was replicated); %s given the same call returned %r "
+                                  "(submission %d)" % (bo.CLSNAME[cls], op[0], tuple(op[1:]), results[k][1], bo.BUILTIN[cls], want, k)})
+            break
         if k not in results:
             viols.append({"signature": "batteries.cluster:callback-missing",
                           "what": "no callback for %s.%s%r (submission %d)" % (bo.CLSNAME[cls], op[0], tuple(op[1:]), k)})
@@ -165,7 +218,13 @@ def evaluate(sim, ops, results, maxsize):
         if isinstance(want, dict) and "e" in want:
             # a raising replicated method: C12's business what the callback carries; only state matters here
             continue
-        if err != 0 or not bo.same(bo.enc(res), want):
+        if err == 0 and isinstance(res, BaseException):
+            # the method raised on the replicas (the callback carries the exception) where the builtin does not
+            viols.append({"signature": "batteries.%s.%s:differs-from-builtin:%s" % (bo.CLSNAME[cls], op[0], type(res).__name__),
+                          "what": "through the cluster %s.%s%r raised %r on the replicas; %s given the same call returned %r "
+                                  "(submission %d)" % (bo.CLSNAME[cls], op[0], tuple(op[1:]), res, bo.BUILTIN[cls], want, k)})
+            break
+        if err != 0 or not bo.same(bm.canon(res) if mixed else bo.enc(res), want):
             viols.append({"signature": "batteries.%s.%s:replicated-result-differs-from-builtin" % (bo.CLSNAME[cls], op[0]),
                           "what": "through the cluster %s.%s%r -> (%r, err %r); %s -> %r (submission %d)"
                                   % (bo.CLSNAME[cls], op[0], tuple(op[1:]), res, err, bo.BUILTIN[cls], want, k)})
@@ -174,13 +233,21 @@ def evaluate(sim, ops, results, maxsize):
     for i in sim.voters:
         contents[i] = {}
         for c in NAMES:
-            st, m = bo.battery_contents(c, sim.objs[i].bat[c])
-            if c == "pq":
-                st = {"l": sorted(st["l"])}
+            if mixed:
+                st, m = bm.battery_raw_contents(c, sim.objs[i].bat[c])
+                st = bm.contents_canon(c, st)
+            else:
+                st, m = bo.battery_contents(c, sim.objs[i].bat[c])
+                if c == "pq":
+                    st = {"l": sorted(st["l"])}
             contents[i][c] = [st, m]
     want = {}
     for c in NAMES:
-        st, m = bo.builtin_contents(c, builtins[c])
+        if mixed:
+            st, m = bm.builtin_raw_contents(c, builtins[c])
+            st = bm.contents_canon(c, st)
+        else:
+            st, m = bo.builtin_contents(c, builtins[c])
         want[c] = [st, m]
     for i in sim.voters:
         for c in NAMES:
@@ -192,16 +259,17 @@ def evaluate(sim, ops, results, maxsize):
     return viols, n_cb, contents
 
 
-def one(repo, seed, sub, n_ops, maxsize):
+def one(repo, seed, sub, n_ops, maxsize, mixed=False):
     import random
     rng = random.Random("%d/%d/cluster" % (seed, sub))
-    r, info = scenario(repo, seed * 1000 + sub, rng, n_ops, maxsize)
+    r, info = scenario(repo, seed * 1000 + sub, rng, n_ops, maxsize, mixed)
     if r is None:
         return [], info, 0, []
     sim, ops, results = r
-    viols, n_cb, contents = evaluate(sim, ops, results, maxsize)
+    viols, n_cb, contents = evaluate(sim, ops, results, maxsize, mixed)
+    info["domain"] = "mixed" if mixed else "int"
     for v in viols:
-        v["replay"] = {"sub": sub, "n_ops": n_ops, "maxsize": maxsize}
+        v["replay"] = {"sub": sub, "n_ops": n_ops, "maxsize": maxsize, "mixed": mixed}
     info["callbacks"] = n_cb
     return viols, info, n_cb, ops
 
@@ -209,20 +277,23 @@ def one(repo, seed, sub, n_ops, maxsize):
 def run(ctx):
     t0 = time.time()
     n_sched = ctx.scale(40, 1500)
-    viols, samples, cov = [], [], {"schedules": 0, "snapshot_installs": 0, "callbacks_compared": 0, "ops": {}}
+    viols, samples, cov = [], [], {"schedules": 0, "mixed_domain_schedules": 0, "snapshot_installs": 0, "callbacks_compared": 0,
+                                   "ops": {}}
     distinct = set()
     for sub in range(n_sched):
         maxsize = [0, 2, 3, 5][sub % 4]
         n_ops = ctx.scale(90, 150)
-        v, info, n_cb, ops = one(ctx.repo, ctx.seed, sub, n_ops, maxsize)
+        mixed = sub % 2 == 1
+        v, info, n_cb, ops = one(ctx.repo, ctx.seed, sub, n_ops, maxsize, mixed)
         cov["schedules"] += 1
+        cov["mixed_domain_schedules"] += 1 if mixed else 0
         cov["snapshot_installs"] += 1 if info.get("snapshot_installed") else 0
         cov["callbacks_compared"] += n_cb
         for cls, op in ops:
-            k = "%s.%s" % (cls, bo.shape(op))
+            k = ("mixed:%s.%s/%d" % (cls, op[0], len(op) - 1)) if mixed else "%s.%s" % (cls, bo.shape(op))
             cov["ops"][k] = cov["ops"].get(k, 0) + 1
         distinct.add(hashlib.sha1(json.dumps(ops).encode()).hexdigest())
-        if len(samples) < 2:
+        if len(samples) < 3:
             samples.append(info)
         for x in v:
             if not any(y["signature"] == x["signature"] for y in viols):
@@ -239,5 +310,5 @@ def run(ctx):
 
 def replay(ctx, violation):
     r = violation.get("replay", {})
-    v, info, n_cb, ops = one(ctx.repo, ctx.seed, r.get("sub", 0), r.get("n_ops", 60), r.get("maxsize", 0))
+    v, info, n_cb, ops = one(ctx.repo, ctx.seed, r.get("sub", 0), r.get("n_ops", 60), r.get("maxsize", 0), r.get("mixed", False))
     return {"violated": any(x["signature"] == violation["signature"] for x in v), "violations": v, "info": info}
